@@ -191,6 +191,8 @@ func replay(kind string, raw json.RawMessage) error {
 		return compose.Replay(raw)
 	}
 	switch kind {
+	case "pre":
+		return run.Decode(raw, checkPre)
 	case "table", "value":
 		return run.Decode(raw, checkTruth)
 	default: // "shape", "slot", "scope", "comp", "nest"
@@ -335,6 +337,23 @@ func TestProp(t *testing.T) {
 	})
 	if cfailed == 0 {
 		rec.Exhaustive(fmt.Sprintf("components: {compact <template> root around a 3-member chain, the same with :require, with line breaks, without wrapper, around a 2-member chain, around one element} x {<template include>, shorthand tag} x 4 assignments of the two props x {top, div, v-for body} x 2 separators, each component used twice per case (%d cases)", nc))
+	}
+
+	// ---- chains inside <pre>: white-space-only text around the chain and inside wrapper members is content
+	np, pfailed := 0, 0
+	enumPre(func(c PreCase) bool {
+		np++
+		if np%shards != shard {
+			return true
+		}
+		nt, cls := classifyPre(c)
+		if !run.Each(rec, "pre", c, nt, cls, checkPre) {
+			pfailed++
+		}
+		return pfailed < 5
+	})
+	if pfailed == 0 {
+		rec.Exhaustive(fmt.Sprintf("chains inside <pre>: v-if + 0..1 v-else-if + optional v-else x all assignments x members {elements, all <template> wrappers, first / last member a wrapper} x white space {blank, newline, tab, run} before and after the chain, between two adjacent chains and at both ends inside the wrappers x {one chain, second chain adjacent} x {in the <pre>, in a v-for inside it}; <pre> content compared exactly (%d cases)", np))
 	}
 
 	// ---- stale-scope placements: chains / probes in a loop body that follows an include with 9..12 props
